@@ -195,6 +195,9 @@ pub fn run_property(p: &Property, opts: &RunOpts) -> RunResult {
                 "distinct_nontrivial": rep.nontrivial.len(),
                 "configurations_covered": rep.configs,
                 "classes": rep.classes,
+                "required_classes_per_mille": sc.required.iter().map(|(c, m)| (c.to_string(), *m)).collect::<std::collections::BTreeMap<String, u32>>(),
+                "draw_vector_len": sc.len,
+                "max_draws_used": rep.max_consumed,
                 "discards": rep.discards,
                 "known_finding_hits": rep.known_hits,
                 "nontrivial_rule": sc.rule,
